@@ -40,6 +40,18 @@ theorem dec_call_never_panics (p : Params) (hp : p.Valid) (m : Method) (s : DecS
     Dec.feedAllP p m s input = .ok (Dec.feedAll p m s input) :=
   DecProof.feedAllP_eq p hp m s input (DecProof.reachable_wf32 p hp hs)
 
+/-- One call on the `Decoder` object (`Decoder::decode` / `decode_copy` / `decode_anchored`:
+swap in `Default`, run, store the new state or return the error) — the function the model
+driver runs for a `dec` op. -/
+theorem dec_object_call_never_panics (p : Params) (hp : p.Valid) (m : Method) (s : DecState)
+    (hs : DecProof.Reachable p s) (input : List UInt8) :
+    Dec.callP p m s input = .ok (Dec.call p m s input) ∧ DecProof.Reachable p (Dec.call p m s input).st := by
+  refine ⟨DecProof.callP_eq p hp m s input (DecProof.reachable_wf32 p hp hs), ?_⟩
+  unfold Dec.call
+  cases hf : Dec.feedAll p m s input with
+  | error ee => obtain ⟨e, es⟩ := ee; exact DecProof.Reachable.init
+  | ok se => obtain ⟨s', es⟩ := se; exact DecProof.feed_reachable p m _ s input hs hf
+
 /-- **A whole life of a `Decoder` never panics**: `Decoder::new()`, any number of
 `decode` / `decode_copy` / `decode_anchored` calls on any byte strings — INCLUDING the calls
 made after a call returned `Err` — then `finish`.  For every byte string and every
